@@ -71,9 +71,10 @@ class PyObj:
     """An opaque Python object whose behaviour is given by the contract, not by code: `attrs` (name -> value) are what attribute access yields,
     `methods` (name -> f(engine, call_node, state, spec)) what a method call does, `call` what calling the object itself does."""
 
-    def __init__(self, kind, attrs=None, methods=None, call=None, binop=None, setitem=None):
+    def __init__(self, kind, attrs=None, methods=None, call=None, binop=None, setitem=None, getitem=None, setattr=None):
         self.kind, self.attrs, self.methods, self.call = kind, attrs or {}, methods or {}, call
         self.binop, self.setitem = binop, setitem        # binop(engine, op, other, self_is_left) ; setitem(engine, target_node, value, state)
+        self.getitem, self.setattr = getitem, setattr    # getitem(engine, subscript_node, state, spec) ; setattr(engine, target_node, value, state)
 
     def __repr__(self):
         return "<PyObj %s>" % self.kind
@@ -420,6 +421,8 @@ class Engine:
         return None
 
     def arith(self, op, a, b, node):
+        if isinstance(a, str) and isinstance(op, ast.Mod) and getattr(self.c, "str_format", None) is not None:
+            return self.c.str_format(self, a, b)          # "%dd" % n : a format whose meaning the contract gives
         if isinstance(a, PyObj) and a.binop is not None:
             return a.binop(self, op, b, True)
         if isinstance(b, PyObj) and b.binop is not None:
@@ -556,6 +559,8 @@ class Engine:
             return st.env[e.id]
         if e.id in ("True", "False", "None"):
             return {"True": True, "False": False, "None": None}[e.id]
+        if e.id in getattr(self.c, "names", {}):
+            return self.c.names[e.id]          # module-level / builtin names whose meaning the contract gives (e.g. `float` as a dtype)
         raise Unsupported("unknown name %s at line %s" % (e.id, getattr(e, "lineno", "?")))
 
     def ev_Tuple(self, e, st, spec):
@@ -581,7 +586,7 @@ class Engine:
     def ev_BinOp(self, e, st, spec):
         a = self.ev(e.left, st, spec)
         b = self.ev(e.right, st, spec)
-        if isinstance(e.op, (ast.FloorDiv, ast.Mod, ast.Div)) and not spec and not isinstance(b, (int, float)) and not isinstance(a, PyObj):
+        if isinstance(e.op, (ast.FloorDiv, ast.Mod, ast.Div)) and not spec and not isinstance(b, (int, float)) and not isinstance(a, (PyObj, str)):
             if z3.is_expr(b) and z3.is_int(b):
                 self.oblige(st, b != 0, "divzero@L%s" % e.lineno, "bounds", e)
         return self.arith(e.op, a, b, e)
@@ -638,6 +643,8 @@ class Engine:
     def ev_Subscript(self, e, st, spec):
         base = self.ev(e.value, st, spec)
         sl = e.slice
+        if isinstance(base, PyObj) and base.getitem is not None:
+            return base.getitem(self, e, st, spec)
         if isinstance(base, tuple):
             i = self.ev(sl, st, spec)
             if isinstance(i, int):
@@ -943,9 +950,50 @@ class Engine:
                         return ast.parse("\n".join(code)).body
             else:
                 raise Unsupported("store into %s" % type(base).__name__)
+        elif isinstance(t, ast.Attribute):
+            base = self.ev(t.value, st)
+            if isinstance(base, PyObj) and base.setattr is not None:
+                base.setattr(self, t, val, st)
+                return None
+            raise Unsupported("attribute store %s at line %s" % (ast.unparse(t), node.lineno))
         else:
             raise Unsupported("assignment target %s" % type(t).__name__)
         return None
+
+    def st_FunctionDef(self, s, st):
+        """a nested helper: bound to a closure object that is INLINED at each call (positional parameters only; the body must be loop-free with one exit).
+        Free variables are read from the state at the call (Python closures read the enclosing scope at call time as well)."""
+        a = s.args
+        if a.vararg or a.kwarg or a.kwonlyargs or a.defaults or a.posonlyargs:
+            raise Unsupported("nested function %s: only plain positional parameters" % s.name)
+        params = [x.arg for x in a.args]
+        body = s.body
+        eng = self
+
+        def call(eng_, e, cst, spec):
+            if e.keywords or len(e.args) != len(params) or any(isinstance(x, ast.Starred) for x in e.args):
+                raise Unsupported("call of nested function %s: arguments" % s.name)
+            vals = [eng.ev(x, cst, spec) for x in e.args]
+            local = set(params) | assigned_names(body)
+            saved = {k: cst.env[k] for k in local if k in cst.env}
+            inner = cst.copy()
+            for k, v in zip(params, vals):
+                inner.env[k] = v
+            outs = eng.exec_block(body, inner)
+            if len(outs) != 1 or outs[0][0] not in ("normal", "return"):
+                raise Unsupported("nested function %s: more than one exit (%s)" % (s.name, [o[0] for o in outs]))
+            kind, o, pay = outs[0]
+            env = dict(o.env)
+            for k in local:
+                env.pop(k, None)
+            env.update(saved)
+            cst.env.clear(); cst.env.update(env)
+            cst.pc[:] = o.pc
+            return pay if kind == "return" else None
+
+        st = st.copy()
+        st.env[s.name] = PyObj("closure %s" % s.name, call=call)
+        return [("normal", st, None)]
 
     def st_Assign(self, s, st):
         st = st.copy()
@@ -1023,6 +1071,8 @@ class Engine:
             elif isinstance(v, PyList):
                 st.env[n] = PyList(self.fresh(n, v.term.sort()), self.fresh(n + "_len", z3.IntSort()), v.elem)
                 st.assume(st.env[n].length >= 0)
+            elif isinstance(v, PyObj) and getattr(v, "transient", False):
+                del st.env[n]       # a value object built inside the loop: unknown at the loop head (a read before its assignment is then reported as unsupported)
             elif isinstance(v, (PyObj, tuple, str)) or v is None:
                 continue            # contract objects / constants: immutable in this model
             elif z3.is_expr(v):
@@ -1239,6 +1289,9 @@ class Engine:
             st.assume(self.to_bool(self.ev(ast.parse(r, mode="eval").body, st, True)))
         self.quiet += 1
         for g, typ, init in c.ghosts:
+            if typ == "intmap":          # ghost map int -> int, unconstrained at entry
+                st.env[g] = z3.Const(g + "0", z3.ArraySort(z3.IntSort(), z3.IntSort()))
+                continue
             st.env[g] = self.ev(ast.parse(init, mode="eval").body, st, True)
             if isinstance(st.env[g], int):
                 st.env[g] = z3.IntVal(st.env[g])
